@@ -80,6 +80,37 @@ func runC09(c *Check, rng *rand.Rand) {
 	}
 	c.Sample(map[string]interface{}{"part": "a", "what": "every proper non-empty subset of answered positions for pipelines of length 2.." + itoa(maxLen)})
 
+	// (a') deep pipelines: > 1024 completed replies pile up behind a slow head; once
+	// the head is answered everything is due
+	for k := 0; k < c.Pick(2, 10); k++ {
+		n := 1100 + rng.Intn(1500)
+		cl, p, gate, err := deepPipeline(env, script, rng, n)
+		must(err, "deep pipeline")
+		must(env.Barrier(), "barrier")
+		time.Sleep(30 * time.Millisecond)
+		gate.Open()
+		waitWritten(script, p[:1], 1)
+		must(env.Barrier(), "barrier")
+		if cl.NReplies() < n {
+			time.Sleep(time.Second)
+			must(env.Barrier(), "barrier")
+		}
+		got := cl.NReplies()
+		c.Eval(1)
+		c.Distinct(fmt.Sprintf("deep/%d", n))
+		if got < n {
+			c.Violate(Violation{Class: "completed-replies-withheld", Shape: "deep-pipeline-behind-slow-head",
+				Detail:  fmt.Sprintf("pipeline of %d: all backends have answered, the client holds %d replies", n, got),
+				Witness: map[string]interface{}{"requests": n, "received": got, "shape": "first request slow, all later ones answered at once, then the first"}})
+		} else {
+			c.Count("due_replies_delivered", int64(n))
+		}
+		cl.Close()
+		for _, r := range p {
+			script.Forget(r.Keys...)
+		}
+	}
+
 	// (b) open loop
 	episodes := c.Pick(6, 60)
 	for ep := 0; ep < episodes; ep++ {
